@@ -180,6 +180,46 @@ func gtSuccPre(r Range, v SemVer) bool {
 	return false
 }
 
+// signedIdent: a prerelease identifier of the form -[0-9]+ (alphanumeric by SemVer's
+// grammar) in the candidate or in an operand: the library's isNumeric reads it with
+// strconv.ParseInt as a negative number and orders it below every numeric identifier.
+func isSignedIdent(id Ident) bool {
+	if id.Num || len(id.S) < 2 || id.S[0] != '-' {
+		return false
+	}
+	for i := 1; i < len(id.S); i++ {
+		if id.S[i] < '0' || id.S[i] > '9' {
+			return false
+		}
+	}
+	return true
+}
+
+func signedIdent(r Range, v SemVer) bool {
+	anyOf := func(pre []Ident) bool {
+		for _, id := range pre {
+			if isSignedIdent(id) {
+				return true
+			}
+		}
+		return false
+	}
+	if anyOf(v.Pre) {
+		return true
+	}
+	for _, a := range r.Alts {
+		if a.Hyphen && (anyOf(a.Lo.Pre) || anyOf(a.Hi.Pre)) {
+			return true
+		}
+		for _, c := range a.Comps {
+			if anyOf(c.P.Pre) {
+				return true
+			}
+		}
+	}
+	return false
+}
+
 // cargoPrePartial: a prerelease candidate against a comma list of at least two
 // comparators one of which has a partial operand: the crate evaluates each
 // comparator component-wise on the prerelease (`~1`, `=1`, `<=1.*` never match
@@ -255,6 +295,9 @@ func classesOf(eco, renc, venc string) ([]string, bool) {
 		if gtSuccPre(rg, v) {
 			out = append(out, "F-C03-gt-succ-pre")
 		}
+		if signedIdent(rg, v) {
+			out = append(out, "F-C03-signed-ident")
+		}
 		if npmHyphenBelow(rg, true) {
 			out = append(out, "F-C03-hyphen-wild")
 		}
@@ -283,6 +326,9 @@ func classesOf(eco, renc, venc string) ([]string, bool) {
 		}
 		if gtSuccPre(rg, v) {
 			out = append(out, "F-C03-gt-succ-pre")
+		}
+		if signedIdent(rg, v) {
+			out = append(out, "F-C03-signed-ident")
 		}
 		if cargoPrePartial(rg, v) {
 			out = append(out, "F-C03-cargo-pre-partial")
